@@ -48,6 +48,12 @@ def main():
             if not os.path.isdir(d) or args.only not in name:
                 continue
             meta = json.load(open(os.path.join(d, 'meta.json')))
+            if meta.get('obsolete_after'):
+                # the construct the change relied on was removed by a fix
+                matrix[name] = {'repo_head': head, 'caught_by': ['(obsolete '
+                                'after fix %s)' % meta['obsolete_after']]}
+                print('%-45s obsolete after %s' % (name, meta['obsolete_after']))
+                continue
             row = {'repo_head': head}
             sh('git -C %s checkout -q -- lomond' % WT)
             # the demos were written to live in <tree>/out/ and many locate
